@@ -72,8 +72,36 @@ def grect(d) -> str:
 
 
 # ---------------- generic correspondence loop ----------------
+def shrink_failure(case, run_impl, oracle, shrink, budget=400):
+    """Greedy shrinking of a case on which the direct oracle reports a property failure."""
+    def fails(c):
+        try:
+            obs = run_impl(c)
+        except Exception as e:
+            return f"implementation raised {type(e).__name__}: {e}", {"crash": str(e)}
+        try:
+            return oracle(c, obs), obs
+        except Exception:
+            return None, obs
+    why, obs = fails(case)
+    if not why:
+        return case, None, None
+    improved = True
+    while improved and budget > 0:
+        improved = False
+        for cand in shrink(case):
+            budget -= 1
+            if budget <= 0:
+                break
+            w, o = fails(cand)
+            if w:
+                case, why, obs, improved = cand, w, o, True
+                break
+    return case, why, obs
+
+
 def run_cases(ctx, out, cases, run_impl, to_coq, oracle, failure_key, header, dist_key=None,
-              nontrivial=None, shard=300):
+              nontrivial=None, shard=300, shrink=None):
     """Run the implementation on every case, evaluate the model's comparison in Coq,
     run the direct oracle on every case; record disagreements / failures in `out`."""
     exprs, kept = [], []
@@ -105,6 +133,18 @@ def run_cases(ctx, out, cases, run_impl, to_coq, oracle, failure_key, header, di
             out.disagreements.append({"key": failure_key(case, "unprintable"), "case": tojson(case),
                                       "impl": tojson(obs), "explained": bool(why),
                                       "why": f"output not expressible as a model value: {type(e).__name__}: {e}"})
+    if shrink and out.failures:
+        seen = set()
+        shrunk = []
+        for f in out.failures:
+            if f["key"] in seen:
+                continue
+            seen.add(f["key"])
+            c, w, o = shrink_failure(unjson(f["case"]), run_impl, oracle, shrink)
+            if w:
+                shrunk.append({"key": f["key"], "why": w, "case": tojson(c), "impl": tojson(o),
+                               "shrunk_from": f["case"]})
+        out.failures = shrunk + out.failures
     res = core.coq_eval_bools(ctx, header, exprs, shard=shard)
     bad = []
     for (case, obs, why), e, r in zip(kept, exprs, res):
